@@ -1,1 +1,2 @@
 //! Generators shared by several properties.
+pub mod mpq;
